@@ -190,6 +190,12 @@ func (e *Engine) doCall(st *State, instr ssa.Instruction, call *ssa.CallCommon, 
 		fv = e.envFor(st, st.top()).materialize(&Val{Addr: fv.Addr, T: "addr", Ty: fv.Ty})
 	}
 	if fv.Clo == nil {
+		// a package-level func variable declared read-only by contract
+		// (`global f nonnil`): the function literal it is initialised with
+		if fn := e.globalFuncOf(call.Value); fn != nil {
+			e.callFunc(st, instr, fn, args, nil, call, k)
+			return
+		}
 		// opaque function value (parameter, field, ...): arbitrary effect
 		e.callOpaque(st, instr, call, fv, args, k)
 		return
@@ -239,6 +245,11 @@ func (e *Engine) callFunc(st *State, instr ssa.Instruction, fn *ssa.Function, ar
 	}
 	if fn.Blocks == nil || len(st.frames) >= maxInlineDepth || e.onStack(st, fn) {
 		if pureExterns[name] {
+			if name == "(*sync.Pool).Put" {
+				for _, a := range args {
+					e.escape(st, a) // the pooled object becomes reachable by others
+				}
+			}
 			k(st, e.freshResults(st, fn.Name(), fn.Signature))
 			return
 		}
@@ -410,7 +421,7 @@ func (e *Engine) callContract(st *State, instr ssa.Instruction, fn *ssa.Function
 			short = stripTypeArgs(o.RelString(o.Pkg.Pkg))
 		}
 	}
-	env := &Env{e: e, st: st, sink: st, names: map[string]*Val{}, callArg: true}
+	env := &Env{e: e, st: st, sink: st, names: map[string]*Val{}, callArg: true, tparams: typeParamsOf(fn)}
 	if fn.Pkg != nil {
 		env.pkg = fn.Pkg.Pkg
 	} else if o := fn.Origin(); o != nil && o.Pkg != nil {
@@ -444,6 +455,7 @@ func (e *Engine) callContract(st *State, instr ssa.Instruction, fn *ssa.Function
 		}
 	}
 	old := st.snapshot()
+	env.old = old // `where` clauses of callbacks may refer to the pre-state
 	e.applyModifies(st, env, c)
 	if c.Trusted {
 		e.Assumed["trusted contract: "+fnKey(fn)] = true
@@ -482,9 +494,11 @@ func (e *Engine) pureContractApp(st *State, fn *ssa.Function, c *Contract, args 
 		}
 		rets = append(rets, &Val{T: t, Ty: rs.At(i).Type()})
 	}
-	env := &Env{e: e, st: st, sink: st, old: st, names: map[string]*Val{}, callArg: true}
+	env := &Env{e: e, st: st, sink: st, old: st, names: map[string]*Val{}, callArg: true, tparams: typeParamsOf(fn)}
 	if fn.Pkg != nil {
 		env.pkg = fn.Pkg.Pkg
+	} else if o := fn.Origin(); o != nil && o.Pkg != nil {
+		env.pkg = o.Pkg.Pkg
 	}
 	for i, p := range fn.Params {
 		if i < len(args) {
@@ -537,6 +551,26 @@ func (e *Engine) havocLoc(st *State, env *Env, loc string) {
 	}
 	if strings.HasPrefix(loc, "ghost:") {
 		e.ghostHavoc(st, strings.TrimPrefix(loc, "ghost:"))
+		return
+	}
+	if strings.HasPrefix(loc, "mview(") && strings.HasSuffix(loc, ")") {
+		// the abstract map view of a map-like object (LockedMap, ShardedMap)
+		cl, err := parseClause(loc[len("mview(") : len(loc)-1])
+		if err != nil {
+			panic(err.Error())
+		}
+		v := env.eval(cl.Expr)
+		mv, mvs, mh, mhs, ok := e.mviewComps(v.Ty)
+		if !ok {
+			panic("spec error: modifies " + loc + ": not a two-parameter map-like type")
+		}
+		for _, cs := range [][2]string{{mv, mvs}, {mh, mhs}} {
+			h := e.heapGet(st, cs[0], cs[1])
+			na := e.freshName("havoc")
+			inner := strings.TrimSuffix(strings.TrimPrefix(cs[1], "(Array Int "), ")")
+			st.declare(na, inner)
+			e.heapSet(st, cs[0], cs[1], sx("store", h, v.T, na))
+		}
 		return
 	}
 	if strings.HasSuffix(loc, "[*]") {
@@ -707,6 +741,7 @@ func (e *Engine) callIfaceContract(st *State, instr ssa.Instruction, m *types.Fu
 		e.emit(st, "pre", fmt.Sprintf("%s#%d", e.site(instr, "pre@"+short), i), e.evalBool(env, rq), "requires of "+short+": "+rq.Text+" "+e.posOf(instr.Pos()))
 	}
 	old := st.snapshot()
+	env.old = old
 	e.Assumed["interface contract (A9): "+c.Key] = true
 	if !c.Pure {
 		e.applyModifies(st, env, c)
